@@ -35,7 +35,8 @@ THEOREMS = [
     'C06.GetItemRes.slice_is_view',
     # refinement: reads and indexed writes (record update, later duplicates win, nothing else changes)
     'C06.refines_propGet_all', 'C06.refines_propGet_index', 'C06.refines_propSet', 'C06.propSet_error_unchanged',
-    'C06.propSet_then_propGet', 'C06.viewSet_existing_refines', 'C06.assign_spec',
+    'C06.propSet_then_propGet', 'C06.viewSet_existing_refines', 'C06.assign_spec', 'C06.refines_setItem',
+    'C06.viewSet_new_refines', 'C06.viewSet_new_reads', 'C06.system_ops_delegate',
     # copying operations: results in fresh buffers, operands unchanged
     'C06.frame_fresh_meaning', 'C06.extend_fresh_unchanged', 'C06.extendInt_fresh_unchanged',
     'C06.propGetAtoms_fresh_unchanged', 'C06.new_fresh_unchanged',
@@ -46,10 +47,79 @@ THEOREMS = [
     'C06.pbcSet_bad_length_rejects', 'C06.sysExtend_scale_int_rejects', 'C06.propAtype_scalar_rejects',
     'C06.mkAtoms_rolls_back', 'C06.step_format', 'C06.step_unmodelled',
 ]
-PARTIAL = {}
-RULE = ''
-ASSUMPTIONS = []
-TRUSTED = []
+PARTIAL = {
+    'refines (single statement abs(step s op) = specStep(abs s) op for every op)':
+        'the refinement to the record-per-atom specification is proved operation family by operation family, as '
+        'exact descriptions of the resulting state in record terms, not as one commuting square over a separately '
+        'defined abstract store: slicing/copying (refines_getItem, refines_deepcopy: row j of every property of the '
+        'result is atom sel.pos[j] of the operand, same names/dtypes/trailing shapes, key order atype,pos,rest), reads '
+        '(refines_propGet_all/_index), indexed writes (refines_propSet, propSet_then_propGet: the column reads '
+        'writeRows old (positions zip cast broadcast rows), later duplicates win, no other property name and no other '
+        'buffer changes), whole-column assignment to an existing key (viewSet_existing_refines) and to a new key '
+        '(viewSet_new_refines: exact resulting state).',
+    'values after extend / atoms_extend, prop_atype, scale=True':
+        'for these the invariant (inv_step: rectangular, typed, atype >= 1, padding) and, for the extending operations, '
+        'freshness and operand_unchanged (extend_fresh_unchanged, extendInt_fresh_unchanged, propGetAtoms_fresh_unchanged) '
+        'are proved for the model, but not the closed form of the resulting values (self rows ++ cast donor rows with '
+        'zero fill; the per-type table lookup; the Cartesian image of box-relative values). Their values are covered '
+        'on every run by the correspondence and by the record-per-atom oracle only. extend is __getitem__ with an '
+        'integer list (proved: refines_getItem), new-key assignments of zero columns (proved: viewSet_new_refines) and '
+        'a loop of the primitive `assign` (proved: assign_spec, Wrote.readback; the same loop is composed over the '
+        'property list for __setitem__ in refines_setItem); what is missing is that last composition for extend.',
+    'aliasing of slices':
+        'GetItemRes.slice_is_view states that a basic slice of more than one atom holds the views p.arr[sel] of the '
+        "operand's arrays (so writes through either are seen by both, refines_propSet's last clause says exactly "
+        'which arrays do not change); a one-atom result is a copy because numpy\'s length-1 broadcast in '
+        'PropertyDict.__setitem__ copies (model = code; the record specification would allow either).',
+    'floating point':
+        'cells are exact rationals; the only arithmetic in the property is scale=True (relative -> Cartesian), done '
+        'exactly in the model and compared exactly on dyadic boxes and values; everything else is data movement and '
+        'numpy casts (truncation toward zero, != 0, string truncation), which are exact.',
+}
+RULE = ('histories of 4-30 operations over up to 7 live Atoms and their Systems, generated from the live objects\' shapes '
+        'only (never their values): constructor with natoms / scalar / length-1 / full atype, pos and 0-3 extra properties '
+        'of dtype int, float, bool, str (several widths) and trailing shapes (), (3,), (3,3); attribute and view '
+        'assignment with scalar / length-1 / full / single-row values of the same or another dtype; prop get/set with '
+        'int, negative int, slices (all sign combinations of start/stop/step, out-of-range bounds, step 0), integer lists '
+        '(negative entries, duplicates, out of bounds) and boolean masks (right and wrong length); prop(index=) and '
+        'prop(index=, value=Atoms); __getitem__/__setitem__ with donors of equal and different property sets, including '
+        '"twin" donors with the same property set in a different order; prop_atype with and without atype (short tables, '
+        'absent types, new and existing keys); extend by int (also 0 and negative) and by Atoms with differing property '
+        'sets; deepcopy; natypes; System construction (pbc of wrong length, symbols shorter/equal/longer than natypes, '
+        'too many masses), symbols/masses/pbc setters and getters (biased to follow atom-type growth), natypes, '
+        'atoms_prop with and without scale (including atype written through scale=True), atoms_ix get/set with Atoms and '
+        'System donors, atoms_extend with scale and symbols; 12% of the operations are deliberately malformed so that '
+        'every refusal branch is exercised. After EVERY operation the reply (value / new object / exception class) and '
+        'the full canonical state (key order, dtype class and string width, shape, values, System tuples, the complete '
+        'np.shares_memory relation between all live arrays) are compared with the Lean driver. A case is one operation '
+        'in its history; distinct = distinct (operation, arguments) JSON; pkeys/drop count as trivial. The search runs '
+        'histories of valid operations (plus 3% hostile atype writes that must be refused) against an independent '
+        'record-per-atom oracle and evaluates the clauses (natoms, keys, rectangular, dtype/shape, string width, values, '
+        'atype >= 1, attribute mirror, padding, symbols/masses content, no aliasing of prop() results and of copying '
+        'operations) on the real objects after every step; failing histories are shrunk one operation at a time.')
+ASSUMPTIONS = [
+    'numpy semantics used by Atoms/System are as transcribed in lean/Atomman/C06.lean (mini-numpy: basic slices are '
+    'views, integer-list / boolean indexing, deepcopy, np.array(np.broadcast_to()), np.zeros copy; assignment '
+    'broadcasts after dropping leading 1-dims, casts unsafely, later duplicates win); checked against numpy 2.5 on '
+    'every run by the correspondence, not proved',
+    'string <-> number casts, object dtype, structured dtypes, NaN/inf, 0-d array values for per-atom properties and '
+    'numpy\'s overlap hazard of 1-D boolean assignment are outside the model (Err.unmodelled: the driver leaves the state '
+    'untouched and the harness skips the operation; never produced by the documented grammar on numeric/str columns)',
+    'float cells are exact rationals in the model: the generated values are dyadic and the boxes dyadic, so that '
+    'relative->Cartesian conversion is exact in double arithmetic',
+    'direct mutation of handed-out live arrays (atoms.pos[0] = ..., atoms.view[key][...] = ...) is not an operation of '
+    'the grammar: the property speaks about the accessor API',
+    'Python object identity / garbage collection is not modelled: an object that became unreachable stays in the model '
+    'state (the invariant is proved for those as well)',
+]
+TRUSTED = [
+    'Lean 4 kernel; axioms propext / Classical.choice / Quot.sound only',
+    'the hand-written model lean/Atomman/C06.lean is tied to atomman/core/Atoms.py and System.py only by the '
+    'differential correspondence of this module (no translator: the code is object-oriented numpy, not tables)',
+    'numpy itself (np.shares_memory, indexing, broadcasting) and the canonical state dump of harness/props/c06.py',
+    'the independent record-per-atom oracle of search() (fractions.Fraction, no buffers / views)',
+]
+
 
 KEYS = ['p0', 'p1', 'p2', 'p3', 'p4']
 STRS = ['a', 'b', 'Fe', 'Al', 'xyz', 'Q', 'uvw', 'Cu', '']
@@ -912,7 +982,7 @@ def shrink(drv, ops, key, budget=150):
 def correspond(ctx):
     cm_np = _np()  # noqa
     rng = ctx.rng
-    nhist = ctx.n(260, 4000)
+    nhist = ctx.n(500, 20000)
     drv = ctx.driver
     kinds = {}
     errs = {}
@@ -1654,7 +1724,7 @@ def shrink_oracle(ops, key, budget=120):
 
 def search(ctx, broken):
     rng = random.Random(ctx.seed * 7919 + 17)
-    nhist = ctx.n(150, 2500) * (3 if broken else 1)
+    nhist = ctx.n(350, 12000) * (3 if broken else 1)
     found = set()
     for hno in range(nhist):
         ops, v = run_oracle_history(None, rng, rng.randint(4, 28), ctx)
@@ -1695,7 +1765,27 @@ def replay(ctx, payload):
 
 
 MANIFEST = {
-    'text': 'C06',
-    'note': '',
-    'technique': 'Lean 4 theorems over a hand-written two-layer model + differential correspondence on histories',
+    'text': 'Two-layer Lean 4 model of Atoms/System: a heap of numpy buffers (dtype, trailing shape, rows) and objects '
+            'mapping property names to arrays (buffer + exposed rows), with every method transcribed as coded '
+            '(PropertyDict.__setitem__ with its broadcast copies and atype check, __getitem__/__setitem__/__deepcopy__, '
+            'prop, prop_atype, extend, System symbols/masses padding, atoms_prop with scale, atoms_ix, atoms_extend) in a '
+            'state monad where the state survives exceptions. Proved by induction over ALL operation histories '
+            '(inv_step / inv_reachable): every buffer is rectangular and homogeneously typed, every property of every '
+            'object exposes exactly natoms distinct existing rows, names are distinct, atype cells are >= 1, atype and '
+            'pos exist, Systems point at live Atoms; symbols/masses are at least natypes long once read. Refinement to '
+            'the record-per-atom view, per operation family: atoms[index] and deepcopy return, for every property, the '
+            'operand\'s rows at the SAME positions (row alignment), reads return the selected rows, an indexed write is '
+            'the record update with later duplicates winning and nothing else changing, whole-column assignment '
+            'overwrites in place; copying operations (list/bool index, deepcopy, prop(index), extend, constructor) '
+            'return objects in fresh buffers and leave every pre-existing object and buffer literally unchanged; one '
+            'lemma per refusal. Tied to the code by a differential run over random operation histories comparing '
+            'replies, full state and the complete memory-sharing relation after every operation; the clauses are '
+            're-evaluated on the real objects next to an independent record-per-atom oracle.',
+    'note': 'Trusted: Lean kernel + propext/Classical.choice/Quot.sound; the hand-written model (tied by the '
+            'correspondence only); numpy. Partial: closed forms of the values after extend, atoms[index] = other, '
+            'prop_atype and new-key assignment are checked by correspondence and oracle on every run, not proved '
+            '(their invariant, freshness and frame are proved). One genuine defect found by the proof attempt and fixed '
+            'in /repo: atoms_prop(\'atype\', index, value, scale=True) stored atom types < 1.',
+    'technique': 'Lean 4 theorems over a hand-written two-layer model + differential correspondence on histories + '
+                 'independent record-per-atom oracle on the real code',
 }
